@@ -42,7 +42,7 @@ ASSUMPTIONS = [
 ]
 REPORT_COUNTERS = ["cases", "crash_points_enumerated", "faults_raised", "scn_first_call", "scn_rebuild", "scn_cache_miss",
                    "scn_next_chain", "scn_invalid_method", "scn_hook_raises", "scn_recursion", "probe_vectors_compared",
-                   "invalid_method_positions", "invalid_method_via_linkback_parent", "invalid_method_swapped_for_valid", "invalid_method_after_first_build", "recursion_faults", "hook_faults", "post_fault_behaviours",
+                   "invalid_method_positions", "invalid_method_via_linkback_parent", "invalid_method_via_parent_of_plain_copy", "invalid_method_swapped_for_valid", "invalid_method_after_first_build", "recursion_faults", "hook_faults", "post_fault_behaviours",
                    "rebuild_faults_probed_through_linked_copy", "registrations_repeated_after_a_fault", "registrations_repeated_straight_after_a_fault", "invalid_method_after_first_build_of_linked_copy",
                    "suspended_method_histories", "suspended_method_two_failed_builds", "recursive_calls_of_suspended_method_checked"]
 
@@ -376,6 +376,11 @@ def _invalid(spec, env, res, ref, behaviours):
             res.count("invalid_rejected_at_registration")
             continue
         parent = prog.ov
+        if not linkback and p % 4 == 2:
+            # a *plain* copy: a build that fails must not hold the parent to anything - the offender lives there and
+            # has to be removable through it
+            prog.ov = parent.copy()
+            res.count("invalid_method_via_parent_of_plain_copy")
         if linkback:
             prog.ov = pre_child if pre_child is not None else parent.copy(linkback=True)
             res.count("invalid_method_via_linkback_parent")
@@ -418,7 +423,7 @@ def _invalid(spec, env, res, ref, behaviours):
                           observed={"position": p, "error": f"{type(e).__name__}: {e}"[:160]}, acceptable="the function works normally once the offending method is removed")
             prog.close()
             return
-        if linkback:
+        if prog.ov is not parent:
             try:   # a copy only gets its entry point when it is first built; f.next bodies name it
                 prog.ov.ensure_compiled()
             except Exception:  # noqa: BLE001
